@@ -49,7 +49,8 @@ def gen(rs, tier):
         if k < 0.3:
             ops.append({"op": "add", "e": _spec(r, nsess, tmax, tmin)})
         elif k < 0.37:
-            ops.append({"op": "add_many", "es": [_spec(r, nsess, tmax, tmin) for _ in range(r.randint(0, 5))]})
+            nb = r.randint(0, 5) if r.random() < 0.97 else r.randint(34, 130)      # now and then a backlog of dozens of events
+            ops.append({"op": "add_many", "es": [_spec(r, nsess, tmax, tmin) for _ in range(nb)]})
         elif k < 0.4:
             # fault inside a bulk insert: one element of the batch is not an event (None); the call fails part-way, the caller
             # catches the error and carries on with the queue
